@@ -285,6 +285,11 @@ func Generate(rng *rand.Rand, prop, tier string, gomaxprocs int) *Desc {
 					if tier == "thorough" && rng.Intn(20) == 0 {
 						n = 7 + rng.Intn(40)
 					}
+					if rng.Intn(120) == 0 {
+						// long enough for whatever the generated submission loop does every so many
+						// elements, and for a cancellation or failure to land while it is still submitting
+						n = 1030 + rng.Intn(1500)
+					}
 					cd.Vals = uniqVals(rng, n)
 					cd.Keys = uniqVals(rng, n)
 					for k := range cd.Keys {
